@@ -225,6 +225,8 @@ func runC16(c *Ctx) {
 		ruleResetComplete(c, p)
 		ruleGrowByAppend(c, p, "C16.fresh")
 		ruleEncoderPure(c, p, "C16.pure")
+		ruleResetReceiver(c, p, "C16.reset-recv")
+		ruleWriterInvariant(c, p, "C16.writer")
 	}
 	p := c.Prog(core.CfgDefault)
 	if p == nil {
@@ -835,11 +837,14 @@ func runC18(c *Ctx) {
 	ruleResetBefore(c, p, "C18.reset")
 	ruleColumnCount(c, p, "C18.colcount")
 	ruleConflictsSymm(c, p, "C18.symm")
+	ruleLenientWidth(c, p, "C18.lenient")
+	ruleWrapperElem(c, p, "C18.wrapper-elem")
 	ruleEndMarker(c, p, "C18.endmarker")
 	ruleCountCases(c, p, "C18.count")
 	ruleInferErrors(c, p, "C18.infer-errors")
 	ruleAutoAdopts(c, p, "C18.auto-adopt")
 	ruleInferMaps(c, p, "C18.exact")
+	ruleMapInfer(c, p, "C18.mapinfer")
 	ruleAdopt(c, p, "C18.adopt")
 	ruleInferTables(c, p, "C18")
 	c.R.Assumptions = append(c.R.Assumptions,
@@ -1545,4 +1550,136 @@ func ruleInferMaps(c *Ctx, p *core.Program, rule string) {
 		}
 	}
 	c.R.Count("map fields filled by Infer methods", n)
+}
+
+// ruleMapInfer (C18.mapinfer / C01.mapinfer): Map(K, V) hands K to the key column and V to the value column.
+func ruleMapInfer(c *Ctx, p *core.Program, rule string) {
+	c.R.Rule(rule, "positional wiring in ColMap.Infer: the type string is split once at the comma; the Infer call on the key column (recv.Keys) receives a value derived from the part before the comma, the call on the value column (recv.Values) one derived from the part after it - swapped or duplicated parts give the value column the key's type (a Map(String, DateTime64(9)) target fails to infer, a Map(DateTime64(3), DateTime64(9)) decodes values with the key's precision)")
+	cfg := p.Cfg.Name
+	inf := p.Method(core.PkgProto, "ColMap", "Infer")
+	if !c.must(p, "(*proto.ColMap).Infer", inf != nil) {
+		return
+	}
+	var cut *ssa.Call
+	for _, call := range core.Calls(inf) {
+		if f := core.CalleeFunc(call); f != nil && f.Pkg() != nil && f.Pkg().Path() == "strings" && (f.Name() == "Cut" || f.Name() == "SplitN" || f.Name() == "Split") {
+			cut, _ = call.(*ssa.Call)
+		}
+	}
+	if cut == nil {
+		c.R.Unk(rule, "ColMap.Infer", cfg, p.Pos(inf.Pos()), "the split of the Map parameters was not found (strings.Cut / Split)")
+		return
+	}
+	part := func(v ssa.Value) int {
+		idx := -1
+		core.DependsOn(v, func(x ssa.Value) bool {
+			if ex, ok := x.(*ssa.Extract); ok && ex.Tuple == ssa.Value(cut) {
+				idx = ex.Index
+				return true
+			}
+			if ia, ok := x.(*ssa.IndexAddr); ok { // Split result indexed by constant
+				if k, okc := core.ConstInt(ia.Index); okc && core.DependsOn(ia.X, func(y ssa.Value) bool { return y == ssa.Value(cut) }, false) {
+					idx = int(k)
+					return true
+				}
+			}
+			return false
+		}, true)
+		return idx
+	}
+	n := 0
+	for _, fw := range core.ForwardedInvokes(inf, "Infer") {
+		if len(fw.Args) != 1 {
+			continue
+		}
+		call := fw.At
+		cc := struct {
+			Value ssa.Value
+			Args  []ssa.Value
+		}{fw.Recv, fw.Args}
+		ap := accessPath(cc.Value, 0)
+		want := -1
+		switch {
+		case strings.HasPrefix(ap, "recv.Keys"):
+			want = 0
+		case strings.HasPrefix(ap, "recv.Values"):
+			want = 1
+		default:
+			continue
+		}
+		n++
+		key := "ColMap.Infer/" + strings.TrimPrefix(ap, "recv.")
+		if got := part(cc.Args[0]); got == want {
+			c.R.Ok(rule, key, cfg, p.Pos(call.Pos()), sprintf("receives part %d of the parameter list", got))
+		} else {
+			c.R.Bad(rule, key, cfg, p.Pos(call.Pos()), sprintf("%s is inferred from part %d of `K, V` instead of part %d", strings.TrimPrefix(ap, "recv."), got, want))
+		}
+	}
+	if n < 2 {
+		c.R.Unk(rule, "ColMap.Infer/population", cfg, p.Pos(inf.Pos()), sprintf("%d forwarded Infer calls found, expected keys and values", n))
+	}
+}
+
+// ruleResetReceiver (C16.reset-recv): a Reset with a value receiver clears a copy.
+func ruleResetReceiver(c *Ctx, p *core.Program, rule string) {
+	c.R.Rule(rule, "Reset reaches the column it is called on: for every column type of struct kind, a Reset method declared on the value (not the pointer) receiver neither stores into the receiver's fields nor hands the address of one of them to a callee - both act on the copy made for the call, so proto.Input.Reset and Reset-before-decode silently keep the old rows; delegating through an interface or pointer field (ColAuto) is unaffected")
+	cfg := p.Cfg.Name
+	n := 0
+	for _, ct := range columnTypes(p) {
+		if _, isStruct := ct.Underlying().(*types.Struct); !isStruct {
+			continue
+		}
+		reset := methodOf(p, ct, "Reset")
+		if reset == nil || reset.Blocks == nil || reset.Signature.Recv() == nil {
+			continue
+		}
+		n++
+		key := ct.Obj().Name() + ".Reset"
+		if _, isPtr := reset.Signature.Recv().Type().(*types.Pointer); isPtr {
+			c.R.Ok(rule, key, cfg, p.Pos(reset.Pos()), "pointer receiver")
+			continue
+		}
+		// the spill of the receiver copy
+		var bad ssa.Instruction
+		onCopy := func(v ssa.Value) bool {
+			for d := 0; d < 6; d++ {
+				fa, ok := v.(*ssa.FieldAddr)
+				if !ok {
+					break
+				}
+				if al, ok := fa.X.(*ssa.Alloc); ok {
+					for _, r := range *al.Referrers() {
+						if s, ok := r.(*ssa.Store); ok && s.Addr == al && s.Val == ssa.Value(reset.Params[0]) {
+							return true
+						}
+					}
+					return false
+				}
+				v = fa.X
+			}
+			return false
+		}
+		for _, b := range reset.Blocks {
+			for _, in := range b.Instrs {
+				switch x := in.(type) {
+				case *ssa.Store:
+					if onCopy(x.Addr) {
+						bad = in
+					}
+				case ssa.CallInstruction:
+					for _, a := range x.Common().Args {
+						if onCopy(a) {
+							bad = in
+						}
+					}
+				}
+			}
+		}
+		if bad != nil {
+			c.R.Bad(rule, key, cfg, p.Pos(bad.Pos()), ct.Obj().Name()+".Reset has a value receiver and clears a field of the copy: the caller's column keeps its rows, and every later block re-sends or re-reports them")
+		} else {
+			c.R.Ok(rule, key, cfg, p.Pos(reset.Pos()), "value receiver that only delegates through reference-typed fields")
+		}
+	}
+	c.R.Floor(rule, cfg, n, 12)
 }
